@@ -97,6 +97,13 @@ var handlers = map[string]func(json.RawMessage) (any, error){
 		}
 		return vrun.RunMulti(&req), nil
 	},
+	"c12": func(b json.RawMessage) (any, error) {
+		var req vrun.C12Request
+		if err := json.Unmarshal(b, &req); err != nil {
+			return nil, err
+		}
+		return vrun.RunC12(&req), nil
+	},
 	"func": func(b json.RawMessage) (any, error) {
 		var req vrun.FuncRequest
 		if err := json.Unmarshal(b, &req); err != nil {
@@ -366,6 +373,21 @@ func CallMulti(req *vrun.MultiRequest) *vrun.MultiAnswer {
 			panic("harness failure: " + cerr.Harness)
 		}
 		return &vrun.MultiAnswer{ProcessDeath: cerr.Death}
+	}
+	return ans
+}
+
+// CallC12 sends a provider-history request to the shared worker.
+func CallC12(req *vrun.C12Request) *vrun.C12Answer {
+	ans := &vrun.C12Answer{}
+	if cerr := sharedWorker.Call("c12", req, ans, 60*time.Second); cerr != nil {
+		if cerr.Harness != "" {
+			panic("harness failure: " + cerr.Harness)
+		}
+		return &vrun.C12Answer{ProcessDeath: cerr.Death}
+	}
+	if ans.HarnessErr != "" {
+		panic("harness failure: " + ans.HarnessErr)
 	}
 	return ans
 }
